@@ -1,37 +1,15 @@
 """C16 — hooked socket I/O reports exactly the bytes it transferred (DESIGN.md 4, C16/C17/C18; bounded)."""
 import os, sys
-sys.path.insert(0, os.path.join(os.path.dirname(os.path.abspath(__file__)), "..", "lib"))
-import native
+sys.path.insert(0, os.path.dirname(os.path.abspath(__file__)))
+import _nio as N
 
-U = "core/src/syscall/unix/"
 CONFIG = dict(
-    id="C16",
-    level="proof",
-    shims=["dashmap", "once_cell", "corosensei", "mio", "num_cpus", "crossbeam-skiplist"],
-    inject=[
-        ("harness/C16/model.rs", U + "mod.rs", "kani", "pub(crate)"),
-        ("harness/C16/read.rs", U + "read.rs", "kani"),
-        ("harness/C16/write.rs", U + "write.rs", "kani"),
-        ("harness/C16/readv.rs", U + "readv.rs", "kani"),
-        ("harness/C16/writev.rs", U + "writev.rs", "kani"),
-        ("harness/C16/recvmsg.rs", U + "recvmsg.rs", "kani"),
-        ("harness/C16/sendmsg.rs", U + "sendmsg.rs", "kani"),
-        ("harness/C16/accept.rs", U + "accept.rs", "kani"),
-        ("harness/C16/connect.rs", U + "connect.rs", "kani"),
-    ],
-    kani=[
-        dict(name="c16_read", bounded="<= 4 kernel answers, len <= 3"),
-        dict(name="c16_write", bounded="<= 4 kernel answers, len <= 3"),
-        dict(name="c16_readv", bounded="<= 3 kernel answers, 2 iovecs x <= 2 bytes", timeout=1500),
-        dict(name="c16_writev", bounded="<= 3 kernel answers, 2 iovecs x <= 2 bytes", timeout=1500),
-        dict(name="c16_recvmsg", bounded="<= 3 kernel answers, 2 iovecs x <= 2 bytes", timeout=1500),
-        dict(name="c16_sendmsg", bounded="<= 3 kernel answers, 2 iovecs x <= 2 bytes", timeout=1500),
-        dict(name="c18_accept", bounded="<= 4 kernel answers"),
-        dict(name="c18_connect", bounded="<= 3 wait rounds"),
-    ],
-    functions=[],
-    assumptions=[],
-    bounds="",
-    manifest=dict(text="", note="", technique=""),
-    trusted=["Kani 0.68 / CBMC 6.11", "feature `log` off"],
+    id="C16", level="other", shims=N.SHIMS, inject=N.INJECT,
+    kani=[N.U[k] for k in ('read', 'write', 'readv', 'writev', 'recvmsg', 'sendmsg')],
+    functions=N.FUNCS, assumptions=N.ASSUME,
+    bounds="per unit: " + N.BB + " (read/write) ; " + N.BV + " (vectored)",
+    explanation='Bounded stand-in (contract-based, Kani): the real NIO wrappers run against a scripted kernel whose every answer is a nondeterministic choice; obligations on the return value, errno and buffer contents hold for every script of the stated length and every buffer shape within the bound. Not counted as proved: the retry loops have no structural bound.',
+    manifest=dict(text="Bounded stand-in. The real hooked read, write, readv, writev, recvmsg and sendmsg run against a scripted kernel that answers every inner call by nondeterministic choice (would-block, interruption, hard error, end of stream, any partial count). For every script of <= 4 answers (<= 3 for the vectored calls), every buffer / iovec shape within the bound, both blocking modes, every time limit and every monotone clock, Kani proves: a non-negative return value is exactly the number of bytes the kernel moved during the call; -1 is returned only if nothing was moved and some kernel call failed, with that call's errno; a zero-length request returns 0; after a read the caller's buffers hold the stream's next bytes in order and nothing else was written; every byte a write hands to the kernel is the next unsent stream byte (none twice, none skipped). Loopback tests only ever see kernel calls that transfer everything at once.", note='Bounded (script length, buffer shapes), never counted as proved. Trusted: scripted-kernel contract, flag-word contract of the two fcntl wrappers, stubs for clock / time limit / wait_*_event, shims.', technique=N.TECH),
+    trusted=N.TRUSTED,
 )
+native_replay = N.native_replay_nio
